@@ -114,7 +114,68 @@ def module_plumbing(ctx: Ctx, recs: List[Dict[str, Any]]) -> None:
             ctx.violation(f"module:{greek}", f"the default {greek} of a BS module is not the automatic derivative of the module's own price", {"point": pt, "pricer": pr, "expected": e, "observed": got.tolist()})
 
 
+def closed_forms(ctx: Ctx) -> Dict[str, int]:
+    """Every closed-form Greek (functional forms and modules) against the derivative of the same product's own price on the
+    lattice of BSAlgebra.tla: which Greek is which derivative (variable, order, sign) comes from the specification, the
+    derivative of the code's price from the harness's own differentiation graph (spot as the leaf, running maximum fixed)."""
+    from checks import bs_common
+    from lib.bsgrid import Grid
+    tier = "thorough" if ctx.tier == "thorough" else "quick"
+    alg = ctx.tlc("MC_BSAlgebra", f"MC_BSAlgebra_{'t' if tier == 'thorough' else 'q'}_C08.cfg", workers=8)
+    if len(alg.records) < 1000:
+        raise MachineryError("BSAlgebra: too few Greek obligations")
+    grid = Grid(tier)
+    seen = bs_common.evaluate(ctx, grid, alg.records, "C08")
+    # the modules' Greeks (closed form or automatic) are the same derivatives
+    from checks.c07 import classes
+    from lib.bsgrid import PATH_DEPENDENT, PUT_OFFERED
+    for p, (_, mcls) in classes().items():
+        for call in ([True, False] if p in PUT_OFFERED else [True]):
+            ad = grid.derivatives(p, call)
+            for ki, K in enumerate(grid.ax["strike"]):
+                m = mcls(call=call, strike=K)
+                sl = (slice(None), slice(None), slice(None), ki, slice(None))
+                kw = {"log_moneyness": grid.lm[sl], "time_to_maturity": grid.t[sl], "volatility": grid.v[sl]}
+                if p in PATH_DEPENDENT:
+                    kw["max_log_moneyness"] = grid.mlm[sl]
+                for g in ("delta", "gamma", "vega", "theta"):
+                    try:
+                        got = getattr(m, g)(**{k: v.clone() for k, v in kw.items()}).detach()
+                    except Exception as ex:
+                        ctx.violation(f"module:{p}:{g}:raises", f"{mcls.__name__}.{g} raised {type(ex).__name__} inside the open domain", {"error": repr(ex)[:300], "strike": K})
+                        continue
+                    want, unit = ad[g][sl], grid.unit(p, g)[sl]
+                    ctx.count(n=got.numel())
+                    bad = ~((got - want).abs() <= 1e-7 * (want.abs() + 1e-6 * unit))
+                    if bool(bad.any()):
+                        i = tuple(int(x) for x in bad.nonzero()[0])
+                        ctx.violation(f"greek:{p}:{g}", f"{g} of the {p} option ({'call' if call else 'put'}) is not the derivative of its own price ({mcls.__name__})",
+                                      {"call": call, "at": grid.describe((i[0], i[1], i[2], ki, i[3])), "module": got[i].item(), "derivative_of_price": want[i].item()})
+    for r in alg.records:
+        ctx.distinct.add(json.dumps(r["ob"], sort_keys=True))
+    ctx.sample(alg.records[0])
+    # binding: an obligation naming the wrong derivative must be rejected
+    probe = Ctx.__new__(Ctx)
+    probe.__dict__.update({"_per_key": {}, "violations": [], "findings": [], "known_hits": {}, "evaluations": 0, "distinct": set(), "skipped": {}})
+    wrong = [json.loads(json.dumps(r)) for r in alg.records if r["ob"]["p"] == "european" and r["ob"]["greek"] == "vega"][:60]
+    for w in wrong:
+        w["ob"]["greek"] = "theta"                                   # "theta is the derivative with respect to volatility"
+    real = grid.derivatives
+    grid.derivatives = lambda p, call: {**real(p, call), "theta": real(p, call)["vega"]}
+    try:
+        bs_common.evaluate(probe, grid, wrong, "C08")
+    finally:
+        grid.derivatives = real
+    ctx.selftest("theta compared with the volatility derivative is rejected", any(v["key"] == "greek:european:theta" for v in probe.violations))
+    ctx.sections["obligations_by_kind"] = seen
+    ctx.sections["lattice"] = {**grid.sizes(), **{k: v for k, v in grid.ax.items()}}
+    return seen
+
+
 def check(ctx: Ctx) -> None:
+    torch.set_default_dtype(torch.float64)
+    closed_forms(ctx)
+    torch.set_default_dtype(torch.float32)
     res = ctx.tlc("MC_AutoGreek", "MC_AutoGreek.cfg", workers=8)
     require_actions(res, ["ParseLeaf", "Rederive", "Filter", "Differentiate"])
     recs = res.records
@@ -133,10 +194,12 @@ def check(ctx: Ctx) -> None:
     ctx.selftest("a delta with the wrong strike factor is rejected", any(v["key"].startswith("autogreek:delta") for v in probe.violations))
     ctx.traces_validated = len(recs)
     ctx.exhaustive = True
-    ctx.rule = ("every admissible (point, pricer signature in {spot, moneyness, log_moneyness} x {volatility, variance} x strike?, 3 coefficient vectors, caller spelling) of AutoGreek.tla, "
+    ctx.rule = ("every Greek obligation of BSAlgebra.tla on the lattice (4 products x call/put where offered x delta/gamma/vega/theta x every lattice point and running maximum) for the "
+                "functional forms and the modules; and "
+                "every admissible (point, pricer signature in {spot, moneyness, log_moneyness} x {volatility, variance} x strike?, 3 coefficient vectors, caller spelling) of AutoGreek.tla, "
                 "per Greek exactly the combinations autogreek accepts, each also replayed with junk lower-priority spellings; distinct = distinct (point, pricer, caller, Greek)")
-    ctx.assumptions += ["PARTIAL CLAIM: only the automatic Greeks (pfhedge.autogreek and module defaults delegating to it) are decided; equality of the closed-form bs_* Greeks with the "
-                        "derivatives of the closed-form prices is a statement of differential calculus about erf/exp expressions and is not decided",
+    ctx.assumptions += ["closed-form Greeks: decided on the dyadic lattice of BSAlgebra.tla (open domain, both branches of the running maximum) against torch.autograd of the code's own "
+                        "price, tolerance 1e-7 relative; between lattice points nothing is decided",
                         "log-moneyness pricers are evaluated at S = K (log(S/K) = 0 exactly)"]
 
 
